@@ -93,6 +93,10 @@ func init() {
 		"errors.New":               hNewError,
 		"context.WithValue":        hCtxWithValue,
 		"slices.Contains":          hSlicesContains,
+		"strings.HasPrefix":        hStringsHasPrefix,
+		"(*encoding/xml.Decoder).Token": hGhostLatch("xmlAdvanced"),
+		"encoding/xml.NewDecoder":  hNonNilIface("encoding/xml.NewDecoder"),
+		"encoding/json.NewDecoder": hNonNilIface("encoding/json.NewDecoder"),
 		"errors.Is":                hErrorsIs,
 		"errors.Join":              hErrorsJoin,
 		"(*sync/atomic.Bool).Load":  hAtomicBool("Load"),
@@ -307,6 +311,14 @@ func hSlicesContains(x *Exec, fr *Frame, st *State, site ssa.Instruction, callee
 	k(st, Val{T: types.Typ[types.Bool], C: []*Term{containsTerm(st, args[0], args[1])}}, false)
 }
 
+// strings.HasPrefix(s, p): a deterministic predicate of the two strings; true only when s is at least as long as p.
+func hStringsHasPrefix(x *Exec, fr *Frame, st *State, site ssa.Instruction, callee *ssa.Function, args []Val, k Kont) {
+	x.assumeNote("assumed contract strings.HasPrefix: pure; HasPrefix(s, p) implies len(s) >= len(p)")
+	r := UF("hasprefix", BoolSort, args[0].C[0], args[1].C[0])
+	st.assume(Implies(r, BVCmp("bvsge", slen(args[0].C[0]), slen(args[1].C[0]))))
+	k(st, Val{T: types.Typ[types.Bool], C: []*Term{r}}, false)
+}
+
 // atomic.Bool as a plain cell (sequential semantics; interleavings are outside the verifier): the flag lives in
 // the unexported field v of the structure the receiver points to.
 func hAtomicBool(op string) stdHandler {
@@ -414,6 +426,20 @@ func hGhostCountErr(name string) stdHandler {
 			st.ghost[name] = Val{T: g.T, C: []*Term{BVBin("bvadd", g.C[0], BVConst(1, g.C[0].Sort.Width))}}
 		}
 		res := freshVal(resultType(callee.Signature), "err")
+		x.assumeWF(st, res)
+		k(st, res, false)
+	}
+}
+
+// hGhostLatch: the call sets the named ghost variable to 1 when it is declared (a latch, free of overflow,
+// for "at least one call happened"); any result.
+func hGhostLatch(name string) stdHandler {
+	return func(x *Exec, fr *Frame, st *State, site ssa.Instruction, callee *ssa.Function, args []Val, k Kont) {
+		x.assumeNote("assumed contract " + callee.String() + ": any result, no effect on module state; latched in ghost " + name)
+		if g, ok := st.ghost[name]; ok {
+			st.ghost[name] = Val{T: g.T, C: []*Term{BVConst(1, g.C[0].Sort.Width)}}
+		}
+		res := freshVal(resultType(callee.Signature), "tok")
 		x.assumeWF(st, res)
 		k(st, res, false)
 	}
